@@ -311,13 +311,20 @@ RunPoll(s) ==
 (* ---- drain (and the drain part of run) : C16 ---- *)
 \* fr.a = <<sink1, sink2>> with sinki = <<fail_at, fail_val>> (fail_at = 0: never fails);
 \* fr.x = [c1, c2: calls made per sink; b1, b2: data bytes passed per sink; z1, z2: closing (size 0) calls per sink]
+\* a sink is <<fail_at, fail_val>> (recording sink) or <<fail_at, ENOMEM, "str", L0>>: the library's string sink on a string of
+\* L0 characters whose fail_at-th growth step cannot allocate
+ENOMEM == -12
+IsStr(sk) == Len(sk) = 4
+SinkArg(sk) == IF IsStr(sk) THEN <<"str", sk[4], sk[1]>> ELSE <<"rec", sk[1], sk[2]>>
+SinkArgs(sinks) == <<SinkArg(sinks[1]), SinkArg(sinks[2])>>
 SinkRet(s, k) ==   \* the value sink k returns for the call it is about to receive
   LET calls == IF k = 1 THEN s.fr.x.c1 ELSE s.fr.x.c2
       sp == s.fr.a[k]
   IN IF sp[1] # 0 /\ calls + 1 = sp[1] THEN sp[2] ELSE 0
-SinkCall(s, k, nbytes, closing) ==
-  IF k = 1 THEN [s EXCEPT !.fr.x.c1 = @ + 1, !.fr.x.b1 = @ + nbytes, !.fr.x.z1 = @ + closing]
-  ELSE [s EXCEPT !.fr.x.c2 = @ + 1, !.fr.x.b2 = @ + nbytes, !.fr.x.z2 = @ + closing]
+SinkCall(s, k, nbytes, closing) ==   \* (s1, s2: bytes the sink accepted, i.e. passed in calls that returned 0)
+  LET okb == IF SinkRet(s, k) = 0 THEN nbytes ELSE 0 IN
+  IF k = 1 THEN [s EXCEPT !.fr.x.c1 = @ + 1, !.fr.x.b1 = @ + nbytes, !.fr.x.z1 = @ + closing, !.fr.x.s1 = @ + okb]
+  ELSE [s EXCEPT !.fr.x.c2 = @ + 1, !.fr.x.b2 = @ + nbytes, !.fr.x.z2 = @ + closing, !.fr.x.s2 = @ + okb]
 
 RECURSIVE RunDrain(_)
 RunDrain(s) ==
@@ -411,7 +418,10 @@ RetRec(s) ==
                nfd |-> NFd(s), nalloc |-> NAlloc(s), st |-> ChildStates(s)]
   IN CASE f.fn = "poll" /\ f.r = 0 -> base @@ [rev |-> [any |-> SetToSeq(f.x)]]
        [] f.fn = "read" /\ f.r > 0 -> base @@ [r |-> f.r, runs |-> f.x, bad |-> 0]
-       [] f.fn \in {"drain", "run"} /\ DOMAIN f.x # {} -> base @@ [r |-> f.r, dsum |-> DrainSummary(f), bad |-> 0]
+       [] f.fn \in {"drain", "run"} /\ DOMAIN f.x # {} ->
+            base @@ [r |-> f.r, dsum |-> DrainSummary(f), bad |-> 0]
+                 @@ (IF IsStr(f.a[1]) THEN [str1 |-> <<f.a[1][4] + f.x.s1, f.a[1][4], 1>>] ELSE <<>>)
+                 @@ (IF IsStr(f.a[2]) THEN [str2 |-> <<f.a[2][4] + f.x.s2, f.a[2][4], 1>>] ELSE <<>>)
        [] f.fn = "start" /\ f.r < 0 /\ ~StrictFailedStart -> [e |-> "ret", t |-> now, mon |-> <<>>, r |-> f.r]
        [] f.fn = "start" /\ f.r = 1 /\ f.x = <<"fork">> ->
             \* in the forked child: start returned 0; pid and wait are rejected there (only destroy is allowed)
@@ -553,8 +563,8 @@ Poll(srcs, to) ==
   IF Len(srcs) = 0 THEN Immediate("poll", 0, args, EINVAL)
   ELSE Begin("poll", 0, args, Frame("poll", 0, "look", <<srcs, to>>))
 
-NoAcc == [c1 |-> 0, c2 |-> 0, b1 |-> 0, b2 |-> 0, z1 |-> 0, z2 |-> 0]
-SinkArgs(sinks) == <<<<"rec", sinks[1][1], sinks[1][2]>>, <<"rec", sinks[2][1], sinks[2][2]>>>>
+NoAcc == [c1 |-> 0, c2 |-> 0, b1 |-> 0, b2 |-> 0, z1 |-> 0, z2 |-> 0, s1 |-> 0, s2 |-> 0]
+
 
 \* sinks = <<<<fail_at, fail_val>>, <<fail_at, fail_val>>>>; nofn = 1: pass a sink without a function
 Drain(h, sinks, nofn) ==
